@@ -4,60 +4,48 @@ From TS Require Proofs.C17.
 From TS Require Props.C17.
 
 Goal forall (s : fs) (t1 t2 : mtime) (o : outputs),
-    NoDup (may_touch o) -> known_C17 o = None -> run (run s t1 o) t2 o = run s t1 o.
+    NoDup (may_touch o) -> run (run s t1 o) t2 o = run s t1 o.
 Proof. exact Props.C17.C17_idempotent. Qed.
 Print Assumptions Props.C17.C17_idempotent.
 Goal forall (s0 : fs) (h : history) (t : mtime) (o : outputs) (ts : list mtime),
-    NoDup (may_touch o) -> known_C17 o = None ->
+    NoDup (may_touch o) ->
     run_history s0 (h ++ (t, o) :: map (fun t' => (t', o)) ts) = run_history s0 (h ++ [(t, o)]).
 Proof. exact Props.C17.C17_idempotent_history. Qed.
 Print Assumptions Props.C17.C17_idempotent_history.
-Goal forall (s : fs) (t1 t2 : mtime) (o : outputs) (p : fpath),
-    NoDup (may_touch o) -> ~ In p (rewritten_each_run o) ->
-    fs_read (run (run s t1 o) t2 o) p = fs_read (run s t1 o) p.
-Proof. exact Props.C17.C17_rerun_keeps_every_other_file. Qed.
-Print Assumptions Props.C17.C17_rerun_keeps_every_other_file.
-Goal forall (s : fs) (t1 t2 : mtime) (o : outputs) (p : fpath),
-    NoDup (may_touch o) -> content (run (run s t1 o) t2 o) p = content (run s t1 o) p.
-Proof. exact Props.C17.C17_rerun_keeps_all_bytes. Qed.
-Print Assumptions Props.C17.C17_rerun_keeps_all_bytes.
-Goal forall (s : fs) (t1 t2 : mtime) (folder : fpath) (crates : list (fpath * gen_result)) (c : bytes),
+Goal forall (s : fs) (t : mtime) (folder : fpath) (crates : list (fpath * gen_result)) (c : bytes) (m : mtime),
     let o := MultiFile folder crates (Some c) in
-    all_generated crates = true -> NoDup (may_touch o) -> content s (codable_path folder) <> Some c ->
-    fs_read (run (run s t1 o) t2 o) (codable_path folder) = Some (c ++ [ch_nl], t2).
-Proof. exact Props.C17.C17_codable_rewritten_every_run. Qed.
-Print Assumptions Props.C17.C17_codable_rewritten_every_run.
-Goal exists (s : fs) (t1 t2 : mtime) (o : outputs),
-    NoDup (may_touch o) /\ run (run s t1 o) t2 o <> run s t1 o.
-Proof. exact Props.C17.C17_idempotent_refuted. Qed.
-Print Assumptions Props.C17.C17_idempotent_refuted.
+    all_generated crates = true -> NoDup (may_touch o) ->
+    fs_read s (codable_path folder) = Some (c ++ [ch_nl], m) ->
+    fs_read (run s t o) (codable_path folder) = Some (c ++ [ch_nl], m).
+Proof. exact Props.C17.C17_codable_up_to_date_untouched. Qed.
+Print Assumptions Props.C17.C17_codable_up_to_date_untouched.
+Goal forall (s : fs) (t : mtime) (folder : fpath) (crates : list (fpath * gen_result)) (c : bytes),
+    let o := MultiFile folder crates (Some c) in
+    all_generated crates = true -> NoDup (may_touch o) ->
+    content s (codable_path folder) <> Some (c ++ [ch_nl]) ->
+    fs_read (run s t o) (codable_path folder) = Some (c ++ [ch_nl], t).
+Proof. exact Props.C17.C17_codable_stale_rewritten. Qed.
+Print Assumptions Props.C17.C17_codable_stale_rewritten.
 Goal forall (s0 : fs) (h : history) (t t' : mtime) (o : outputs) (p : fpath) (b : bytes),
-    NoDup (may_touch o) -> In (p, b) (responsible o) -> ~ In p (rewritten_each_run o) -> b <> [] ->
+    NoDup (may_touch o) -> In (p, b) (responsible o) -> b <> [] ->
     content (run_history s0 (h ++ [(t, o)])) p = content (run empty_fs t' o) p.
 Proof. exact Props.C17.C17_fresh. Qed.
 Print Assumptions Props.C17.C17_fresh.
 Goal forall (s : fs) (t : mtime) (o : outputs) (p : fpath) (b : bytes),
-    NoDup (may_touch o) -> In (p, b) (responsible o) -> ~ In p (rewritten_each_run o) -> b <> [] ->
-    content (run s t o) p = Some b.
+    NoDup (may_touch o) -> In (p, b) (responsible o) -> b <> [] -> content (run s t o) p = Some b.
 Proof. exact Props.C17.C17_fresh_value. Qed.
 Print Assumptions Props.C17.C17_fresh_value.
-Goal forall (s : fs) (t : mtime) (folder : fpath) (crates : list (fpath * gen_result)) (c : bytes),
-    let o := MultiFile folder crates (Some c) in
-    all_generated crates = true -> NoDup (may_touch o) -> content s (codable_path folder) <> Some c ->
-    content (run s t o) (codable_path folder) = Some (c ++ [ch_nl]).
-Proof. exact Props.C17.C17_fresh_codable. Qed.
-Print Assumptions Props.C17.C17_fresh_codable.
 Goal forall (s : fs) (t : mtime) (o : outputs) (p : fpath),
     NoDup (may_touch o) -> In (p, []) (responsible o) -> fs_read (run s t o) p = fs_read s p.
 Proof. exact Props.C17.C17_empty_output_keeps_file. Qed.
 Print Assumptions Props.C17.C17_empty_output_keeps_file.
 Goal exists (s0 : fs) (h : history) (t t' : mtime) (o : outputs) (p : fpath) (b : bytes),
-    NoDup (may_touch o) /\ In (p, b) (responsible o) /\ ~ In p (rewritten_each_run o) /\
+    NoDup (may_touch o) /\ In (p, b) (responsible o) /\
     content (run_history s0 (h ++ [(t, o)])) p <> content (run empty_fs t' o) p.
 Proof. exact Props.C17.C17_fresh_refuted. Qed.
 Print Assumptions Props.C17.C17_fresh_refuted.
 Goal forall (s : fs) (t : mtime) (o : outputs) (p : fpath) (b : bytes),
-    NoDup (may_touch o) -> In (p, b) (responsible o) -> ~ In p (rewritten_each_run o) ->
+    NoDup (may_touch o) -> In (p, b) (responsible o) ->
     fs_read (run s t o) p =
     match fs_read s p with
     | Some (old, m) => if str_eqb old b then Some (old, m) else if is_empty_bytes b then Some (old, m) else Some (b, t)
@@ -80,11 +68,11 @@ Goal forall (s : fs) (t : mtime) (o : outputs), snd (run_full s t o) = ExitOk <-
 Proof. exact Props.C17.C17_exit_status. Qed.
 Print Assumptions Props.C17.C17_exit_status.
 Goal forall (s : fs) (t1 t2 : mtime) (o : outputs),
-    NoDup (may_touch o) -> known_C17 o = None -> good_rerun (run s t1 o) (run (run s t1 o) t2 o) = true.
+    NoDup (may_touch o) -> good_rerun (run s t1 o) (run (run s t1 o) t2 o) = true.
 Proof. exact Props.C17.C17_rerun_good. Qed.
 Print Assumptions Props.C17.C17_rerun_good.
 Goal forall (s0 : fs) (h : history) (t t' : mtime) (o : outputs),
-    NoDup (may_touch o) -> known_C17 o = None -> nonempty_outputs o = true ->
+    NoDup (may_touch o) -> nonempty_outputs o = true ->
     good_fresh (map fst (responsible o)) (run_history s0 (h ++ [(t, o)])) (run empty_fs t' o) = true.
 Proof. exact Props.C17.C17_fresh_good. Qed.
 Print Assumptions Props.C17.C17_fresh_good.
